@@ -16,7 +16,7 @@ DEFAULT = dict(
     weights=dict(ssink=3, ssinkc=1, csink=2, const=0.3, never=0.2, map=4, mapto=0.5, filter=2, filteropt=0.5,
                  merge=4, orelse=1.5, snapshot=3, snapshot1=0.7, snapshotn=0.5, gate=1, hold=2.5, once=1, updates=1,
                  value=1, mapc=1.5, lift2=2, liftn=0.5, accum=1.5, collect=1, defer=0, split=0, switchs=0, switchc=0,
-                 sloop=0, cloop=0, router=0, holdlazy=0, switchdyn=0, accumlazy=0, collectlazy=0, route=0, switchlate=0, switchlatec=0, snaplazy=0, snapmapc=0, latelisten=0, deepdiamond=0, lift2d=0, handlerlisten=0, latehold=0, lateloop=0, switchnest=0, leafdrop=0, lateswitch=0, lateswitchc=0),
+                 sloop=0, cloop=0, router=0, holdlazy=0, switchdyn=0, accumlazy=0, collectlazy=0, route=0, switchlate=0, switchlatec=0, snaplazy=0, snapmapc=0, latelisten=0, deepdiamond=0, lift2d=0, handlerlisten=0, latehold=0, lateloop=0, switchnest=0, leafdrop=0, lateswitch=0, lateswitchc=0, ancestormerge=0),
     max_defer=1, leakcheck=False, malformed=False, values=(-5, 15), coalesce_sends=False,
 )
 
@@ -212,6 +212,18 @@ class Gen:
             L.append(f"merge {n} {s} {cur} {self.op()}" if self.r.random() < 0.5 else f"merge {n} {cur} {s} {self.op()}")
             self.add_stream(n, set())
             l = self.fresh("l"); L.append(f"listen {l} {n}"); self.listeners.append(l)
+        elif kind == "ancestormerge" and s and not self.t(s):
+            # a two-input node whose right input A is an ancestor of its left input B, itself merged with the source two
+            # rounds upstream of A: the node is reached through its dependent's dependency walk while A and B are unvisited
+            cur = s
+            for _ in range(self.r.randint(2, 3)):
+                nx = self.fresh("s"); L.append(f"map {nx} {cur} {self.r.randint(0, 2)}"); self.add_stream(nx, set()); cur = nx
+            A = cur
+            B = self.fresh("s"); L.append(self.r.choice([f"map {B} {A} {self.small()}", f"filter {B} {A} {self.small()}"])); self.add_stream(B, set())
+            N = self.fresh("s"); L.append(f"merge {N} {B} {A} {self.op()}" if self.r.random() < 0.7 else f"merge {N} {A} {B} {self.op()}"); self.add_stream(N, set())
+            top = self.fresh("s"); L.append(f"merge {top} {s} {N} {self.op()}" if self.r.random() < 0.5 else f"merge {top} {N} {s} {self.op()}"); self.add_stream(top, set())
+            for x in (N, top):
+                l = self.fresh("l"); L.append(f"listen {l} {x}"); self.listeners.append(l)
         elif kind == "latelisten" and s and s2 and not self.t(s) and not self.t(s2):
             # FRP (a two-input node, a map, a listener) built inside a listener handler on the first event of s
             base = s2
@@ -288,8 +300,11 @@ class Gen:
                 pre = []
                 if how < 0.3:
                     trig = self.fresh("s"); pre = [f"defer {trig} {s}"]; self.add_stream(trig, set()); self.ndefer += 1
-                elif how < 0.5 and cands:
-                    other = r.choice(cands); rt = self.fresh("s"); trig = self.fresh("s")
+                elif how < 0.65:
+                    # … merged with a sink of its own: when only that sink fires, the router is visited (as a dependency of the
+                    # route) although its input is silent
+                    other = self.fresh("s"); L.append(f"ssink {other}"); self.add_stream(other); self.ssinks.append(other)
+                    rt = self.fresh("s"); trig = self.fresh("s")
                     L.append(f"route {rt} {rn} {r.randint(0, 2)}"); self.add_stream(rt, self.t(s))
                     L.append(f"orelse {trig} {rt} {other}"); self.add_stream(trig, set())
                 if pre:
@@ -438,7 +453,8 @@ class Gen:
         if not c: return
         x = self.r.choice(c)
         y = self.fresh("s"); self.lines.append(f"map {y} {x} {self.small()}"); self.add_stream(y, set())
-        lv = self.fresh("l"); self.lines.append(f"listen {lv} {y}"); self.listeners.append(lv)
+        # (a weak listener that is unlistened through its handle must fall silent just the same)
+        lv = self.fresh("l"); self.lines.append(f"{'listenweak' if self.r.random() < 0.4 else 'listen'} {lv} {y}"); self.listeners.append(lv)
         lk = self.fresh("l"); self.lines.append(f"listenkill {lk} {x} {lv}"); self.listeners.append(lk)
 
     def gen_listen(self):
